@@ -70,14 +70,15 @@ type fnInfo struct {
 
 // Violation is a failed assertion or reachable panic with its model.
 type Violation struct {
-	Harness string
-	ID      string
-	Kind    string // "assert" | "panic" | "fail"
-	Msg     string
-	Model   Model
-	Trail   []int
-	PathSig string
-	Vars    []string // nondet variables in creation order
+	Harness   string
+	ID        string
+	Kind      string // "assert" | "panic" | "fail"
+	Msg       string
+	Model     Model
+	Trail     []int
+	PathSig   string
+	Vars      []string // nondet variables in creation order
+	RealClock bool     // the code under test read the wall clock on this path
 }
 
 // Stats are aggregated per harness entry.
@@ -114,58 +115,59 @@ type Exec struct {
 	H    *Harness // static harness configuration
 	St   *Stats
 
-	pc            []*Term
-	trail         []decision
-	pos           int
-	minLen        int // trail prefix that must not be backtracked
-	donate        func(prefix []pick) bool
-	undo          []undoRec
-	objSeq        int
-	globals       map[*ssa.Global]*Object
-	inited        map[*ssa.Package]bool
-	initing       map[*ssa.Package]bool
-	initSkipped   map[*ssa.Package]bool
-	initAssigned  map[*ssa.Package]map[*ssa.Global]bool
-	lazyIniting   map[*ssa.Global]bool
-	persistMode   bool
-	fnInfos       map[*ssa.Function]*fnInfo
-	depth         int
-	steps         int64
-	nondetN       map[string]int
-	vars          []*Term
-	ghost         map[string]Value
-	lastModel     Model
-	violations    []Violation
-	violKeys      map[string]bool
-	sampled       map[string]bool
-	curFrame      *frame
-	clock         *Term // last value returned by time.Now (non-decreasing)
-	locksHeld     int
-	maxLocks      int
-	typeIDs       map[string]types.Type
-	speculating   int
-	hashSeq       int
-	Tier          int
-	uniq          map[string]*Object
-	lastRecovered *goPanic
-	inconclusive  []string
-	hashLog       [][]*Term
-	inEnv         bool
-	skipPhis      bool
-	pathUnknown   bool
-	auxVars       []*Term
-	asciiKnown    map[*Term]bool
-	clockLog      []*Term
-	rawInit       bool
-	deadline      time.Time
-	blockTicks    int
-	specWatermark int
-	persistSeq    int
-	mergeFail     map[mergeKey]int
-	pcSet         map[*Term]int
-	pcLits        []*Term
-	pcHash        []uint64
-	unsatCache    map[int][]unsatEntry
+	pc             []*Term
+	trail          []decision
+	pos            int
+	minLen         int // trail prefix that must not be backtracked
+	donate         func(prefix []pick) bool
+	undo           []undoRec
+	objSeq         int
+	globals        map[*ssa.Global]*Object
+	inited         map[*ssa.Package]bool
+	initing        map[*ssa.Package]bool
+	initSkipped    map[*ssa.Package]bool
+	initAssigned   map[*ssa.Package]map[*ssa.Global]bool
+	lazyIniting    map[*ssa.Global]bool
+	persistMode    bool
+	fnInfos        map[*ssa.Function]*fnInfo
+	depth          int
+	steps          int64
+	nondetN        map[string]int
+	vars           []*Term
+	ghost          map[string]Value
+	lastModel      Model
+	violations     []Violation
+	violKeys       map[string]bool
+	sampled        map[string]bool
+	curFrame       *frame
+	clock          *Term // last value returned by time.Now (non-decreasing)
+	locksHeld      int
+	maxLocks       int
+	typeIDs        map[string]types.Type
+	speculating    int
+	hashSeq        int
+	Tier           int
+	uniq           map[string]*Object
+	lastRecovered  *goPanic
+	inconclusive   []string
+	hashLog        [][]*Term
+	inEnv          bool
+	skipPhis       bool
+	pathUnknown    bool
+	auxVars        []*Term
+	asciiKnown     map[*Term]bool
+	clockLog       []*Term
+	realClockReads int
+	rawInit        bool
+	deadline       time.Time
+	blockTicks     int
+	specWatermark  int
+	persistSeq     int
+	mergeFail      map[mergeKey]int
+	pcSet          map[*Term]int
+	pcLits         []*Term
+	pcHash         []uint64
+	unsatCache     map[int][]unsatEntry
 }
 
 // FixedModel, when non-nil, makes every nondeterministic value concrete
